@@ -484,6 +484,11 @@ def equals(interp, a, b, node=None):
                 rs.append(r)
         return z3.And(*rs) if rs else True
     if isinstance(a, SetV) and isinstance(b, SetV):
+        if a is b:
+            return True
+        plain = lambda x: isinstance(x, (str, int, bool)) or x is None      # noqa: E731
+        if all(plain(x) for x in a.items) and all(plain(x) for x in b.items):
+            return set(a.items) == set(b.items)                              # sets of plain values: equal iff same elements
         raise Unsupported("set equality")
     if isinstance(a, (ClassV, FuncV, TypeMarker, ExcClassV)) or isinstance(b, (ClassV, FuncV, TypeMarker, ExcClassV)):
         return a is b
